@@ -519,3 +519,15 @@ register("C19",
          [stream_part("C19", lambda tier: [("gather", "gather", ["-seed", seed(), "-n", 3000 if tier == "quick" else 40000])],
                       nontrivial=lambda case, im: len(im.split()) >= 3),
           _c19_part])
+
+
+register("C01",
+         "generated multi-package programs (1-3 injectors per package, nested sets across packages, struct/value/field/binding "
+         "providers, variadics, renamed and same-named packages): every accepted package is compiled (go build) and every injector is "
+         "assigned to a variable of its declared function type; programs with an unexported provider function reached through another "
+         "package's set must be rejected; non-trivial = accepted injector / planted program",
+         [e2e_part("C01", P_DEFAULT + P_CLEAN + [("a", {"adversarial": True})], _pairs_plan, {"C01"},
+                   lambda ur: (ur.impl or "").startswith("ok"), n_quick=150, n_thorough=1500),
+          e2e_part("C01", [("u", {"plant": ["unexported"], "plant_p": 1.0, "units": [1, 2], "max_structs": 8})],
+                   lambda ur: [] if _planted(ur) else _pairs_plan(ur), set(), _planted,
+                   n_quick=120, n_thorough=800, build=True, runit=False, extra=_planted_oracle({"unexported": "unexported:"}))])
